@@ -6,7 +6,7 @@ import ioops
 import iomodel
 
 ESCALATE_MAX = 60000      # cases drawn at most when a changed source file makes the quick tier look harder
-RULE = ("random well-formed textgrids as in C01, labels and tier names additionally drawn from the formats' own keywords "
+RULE = ("random well-formed textgrids as in C01 (a fifth on negative times; names with surrounding blanks and line breaks), labels and tier names additionally drawn from the formats' own keywords "
         "('item [2]:', 'intervals [1]:', '\"IntervalTier\"', 'text = \"x\"', 'ooTextFile short', ...) x includeBlankSpaces x "
         "optional minTimestamp/maxTimestamp overrides at / beyond the data span; each textgrid is written in all four "
         "formats and every text is decoded by the independent reader of harness/ioops.py (free-standing-token rule of "
@@ -209,6 +209,8 @@ def gen_main(rnd, tier):
         labels = ioops.PLAIN_LABELS + (ioops.KEYWORD_LABELS * 2 if kw else [])
         names = ioops.NAMES + (ioops.KEYWORD_NAMES if kw else [])
         g = C01.despace(ioops.gen_tg(rnd, rnd.choice(["full", "simple"]), labels=labels, names=names), rnd)
+        if rnd.random() < 0.2:
+            g = ioops.negate_tg(g, rnd)         # negative times: all below 0, or on both sides of it
         c = {"op": "write", "tg": g, "blanks": rnd.random() < 0.7, "stream": "keyword" if kw else "plain"}
         if not c["blanks"] and rnd.random() < 0.35:
             # a tier whose own span is narrower than the textgrid's (written verbatim when blank filling is off): the file
@@ -219,7 +221,7 @@ def gen_main(rnd, tier):
         if rnd.random() < 0.3:
             c["max"] = rnd.choice([g["hi"], g["hi"] + 1.0, g["hi"] + 0.123])
         if rnd.random() < 0.1:
-            c["min"] = 0.0
+            c["min"] = g["lo"] + 0.0
         yield c
 
 
